@@ -29,8 +29,8 @@ type Order struct {
 	PairsChecked  int
 }
 
-func NewOrder() *Order        { return &Order{nodes: map[int]*nodeOrder{}} }
-func (m *Order) ID() string   { return "C04" }
+func NewOrder() *Order      { return &Order{nodes: map[int]*nodeOrder{}} }
+func (m *Order) ID() string { return "C04" }
 func (m *Order) reset(n *sim.SimNode) *nodeOrder {
 	st := &nodeOrder{pos: map[string]int{}, waiting: map[string]string{}, blocksRR: map[int]int{}, app: n.App, ffStep: n.FFStep}
 	m.nodes[n.Idx] = st
@@ -172,10 +172,11 @@ func short(h string) string {
 // C05 transaction integrity
 
 type Integrity struct {
-	consumed  map[int]int
-	delivered map[int]map[string]int
-	apps      map[int]*sim.App
-	Checked   int
+	consumed    map[int]int
+	delivered   map[int]map[string]int
+	apps        map[int]*sim.App
+	Checked     int
+	SigsChecked int
 }
 
 func NewIntegrity() *Integrity {
@@ -248,6 +249,38 @@ func (m *Integrity) AfterStep(c *sim.Cluster) []ev.Violation {
 					Replay: replay(c, map[string]interface{}{"node": n.Idx})})
 			}
 		}
+		// own block signatures: one per delivered block whose validator set contains the node, either still
+		// waiting in the pool or carried by exactly the node's own events
+		if n.FullHistory() {
+			sigAt := map[int]int{}
+			for _, sg := range cs.SelfSigs {
+				sigAt[sg.Index]++
+			}
+			for _, hex := range c.EvOrder {
+				rec := c.Events[hex]
+				if rec.CreatorIdx != n.Idx {
+					continue
+				}
+				for _, sg := range rec.Sigs {
+					sigAt[sg.Index]++
+				}
+			}
+			for _, cr := range n.App.Commits {
+				ps, err := n.Store.GetPeerSet(cr.Body.RoundReceived)
+				if err != nil {
+					continue
+				}
+				if _, member := ps.ByPubKey[n.Pub]; !member {
+					continue
+				}
+				m.SigsChecked++
+				if sigAt[cr.Body.Index] == 0 {
+					out = append(out, ev.Violation{Property: "C05", Key: "own-block-signature-lost",
+						What:   fmt.Sprintf("node %d delivered block %d as a member of its validator set, but its signature for it is neither in its pool nor in any of its events", n.Idx, cr.Body.Index),
+						Replay: replay(c, map[string]interface{}{"node": n.Idx, "block": cr.Body.Index})})
+				}
+			}
+		}
 		// internal transactions
 		haveI := map[string]int{}
 		for _, it := range cs.ItxPool {
@@ -283,5 +316,5 @@ func (m *Order) Counters() map[string]int {
 	return map[string]int{"c04_frames_checked": m.FramesChecked, "c04_parent_pairs_checked": m.PairsChecked}
 }
 func (m *Integrity) Counters() map[string]int {
-	return map[string]int{"c05_delivered_tx_checked": m.Checked}
+	return map[string]int{"c05_delivered_tx_checked": m.Checked, "c05_own_block_signatures_checked": m.SigsChecked}
 }
